@@ -120,6 +120,15 @@ def c14b(tree, ob):
 
 
 def c14d(tree, ob):
+    # the keepalive timer measures the time since this side last SENT something: only transmissions (and the start of the
+    # negotiated interval) restart it - a received KEEPALIVE does not
+    for (rel, qual, func) in tree.all_functions([SESS]):
+        for c in method_calls(func, '_keepalive_reset', 'self'):
+            if func.name in ('send_message', 'merge_session_params'):
+                ob.site(SESS, c, func.name + ' restarts the keepalive timer')
+            else:
+                ob.violate(SESS, qual, src(c), 'the keepalive timer is restarted by something other than a transmission: when the peer KEEPALIVEs arrive shortly before the own ones are due, '
+                           'the own KEEPALIVE is postponed again and again and never sent', c)
     fv = FuncView(tree, SESS, 'Messenger.send_message')
     calls = method_calls(fv.func, '_keepalive_reset', 'self')
     if calls and fv.cfg.must_pass(fv.cfg.entry, fv.cfg.exit, {fv.node(c) for c in calls}, include_exc=False)[0]:
